@@ -134,6 +134,7 @@ func main() {
 	cameras(r)
 	objects(r)
 	objects2(r)
+	helperObjects(r)
 
 	r.Require("estimator.renders", 30)
 	r.Require("estimator.pixels_checked", 2000)
@@ -277,6 +278,40 @@ func estimator(r *vlib.Run) {
 					c.Violation("render3d.RecursiveRayTracer.Convergence/mean-is-current-mean", fmt.Sprintf("the convergence function was called with mean %v, which is not the mean of the first k samples of any pixel", m), settings)
 					break
 				}
+			}
+		}
+		// the per-pixel variance image: a fixed number of samples per pixel, each pixel the unbiased
+		// sample variance (per channel) of exactly the samples taken for it
+		if c.Index%3 == 0 {
+			k := 2 + rng.Intn(12)
+			obj2 := &logObj{ph: newPinhole(cam, w, h), w: w, h: h, seed: uint64(c.SubSeed) + 1, samples: make([][]render3d.Color, w*h)}
+			vimg := render3d.NewImage(w, h)
+			vimg.SetAll(sentinel)
+			rt.RenderVariance(vimg, obj2, k)
+			c.Count("estimator.variance_renders", 1)
+			for idx, sm := range obj2.samples {
+				wit := map[string]interface{}{"settings": settings, "pixel": idx, "variance_samples": k, "samples_taken": len(sm)}
+				if len(sm) != k {
+					c.Violation("render3d.RecursiveRayTracer.RenderVariance/fixed-sample-count", fmt.Sprintf("pixel %d took %d samples, asked for %d", idx, len(sm), k), wit)
+					return
+				}
+				m := mean(sm)
+				var ss render3d.Color
+				for _, v := range sm {
+					d := v.Sub(m)
+					ss = ss.Add(d.Mul(d))
+				}
+				want := ss.Scale(1 / float64(k-1))
+				if got := vimg.Data[idx]; got.Dist(want) > 1e-9*(1+want.Norm()+m.Mul(m).Norm()) {
+					wit["variance_of_samples"] = fmt.Sprint(want)
+					c.Violation("render3d.RecursiveRayTracer.RenderVariance/pixel-is-sample-variance", fmt.Sprintf("pixel %d = %v, the unbiased variance of its %d logged samples is %v", idx, got, k, want), wit)
+					return
+				}
+				c.Count("estimator.variance_pixels_checked", 1)
+			}
+			if obj2.misattr > 0 {
+				c.Violation("render3d.Camera.Caster/ray-maps-back-to-its-pixel", fmt.Sprintf("%d primary rays of RenderVariance do not project back to an image pixel (antialias %g)", obj2.misattr, rt.Antialias), settings)
+				return
 			}
 		}
 		if w*h >= 4 && total >= 2*w*h {
